@@ -3,13 +3,14 @@ use crate::engine::Property;
 pub mod c01;
 pub mod c02;
 pub mod c03;
+pub mod c11;
 pub mod c12;
 pub mod c13;
 pub mod c19;
 pub mod c18;
 
 pub fn all() -> Vec<fn() -> Property> {
-    vec![c01::property, c02::property, c03::property, c12::property, c13::property, c18::property, c19::property]
+    vec![c01::property, c02::property, c03::property, c11::property, c12::property, c13::property, c18::property, c19::property]
 }
 
 pub fn by_id(id: &str) -> Option<Property> {
